@@ -261,7 +261,9 @@ def h_month(mi, pref):
     return fn
 
 
-def h_daymonth(mi, pref, width):
+def h_daymonth(mi, pref, width, with_time=False):
+    """'DD Month' or, with_time, 'DD Month HH:MM' (the year is open, the clock time is stated: on the reference's own
+    day and month the answer depends on the time of day)"""
     name = C.EN_MONTHS[mi - 1].capitalize()
 
     def fn():
@@ -270,13 +272,20 @@ def h_daymonth(mi, pref, width):
         d = C.field("d", 1 if width == 2 else 1, min(dmax, 9 if width == 1 else 31))
         if pref == "current_period" and mi == 2:
             core.assume(mkbool(z3.Or(_zi(d) <= 28, dates.z_isleap(_zi(b.year)))))
-        s = tmpl([("d", width), " " + name], {"d": d})
+        if with_time:
+            t = C.time_fields("t", "HM")
+            s = tmpl([("d", width), " " + name + " ", ("H", 2), ":", ("M", 2)], {"d": d, "H": t["H"], "M": t["M"]})
+        else:
+            s = tmpl([("d", width), " " + name], {"d": d})
         dd = C.api(s, languages=["en"], settings=_settings(b, pref))
         wit = dict(C.base_witness(b), d=d)
+        if with_time:
+            wit.update(tH=t["H"], tM=t["M"])
         do = dd.date_obj
         if do is None:
             return C.outcome(False, wit, "none")
-        keep = z3.And(_zi(do.month) == mi, _zi(do.day) == _zi(d), do._us_of_day() == 0, do.tzinfo is None,
+        tod = (_zi(t["H"]) * 3600 + _zi(t["M"]) * 60) * 1000000 if with_time else 0
+        keep = z3.And(_zi(do.month) == mi, _zi(do.day) == _zi(d), do._us_of_day() == tod, do.tzinfo is None,
                       dd.period == "day")
         if pref == "past":
             ok = z3.And(keep, _le(do, b))
@@ -354,6 +363,8 @@ def tasks(tier, seed):
         for p in PREFS:
             add("month:%02d:%s" % (mi, p), "h_month", {"mi": mi, "pref": p})
             add("daymonth:%02d:%s" % (mi, p), "h_daymonth", {"mi": mi, "pref": p, "width": 2})
+            if p != "current_period":
+                add("daymonth-time:%02d:%s" % (mi, p), "h_daymonth", {"mi": mi, "pref": p, "width": 2, "with_time": True})
     if not quick:
         for p in PREFS:
             add("daymonth1:07:%s" % p, "h_daymonth", {"mi": 7, "pref": p, "width": 1})
@@ -380,6 +391,8 @@ def build_spec(task, viol):
         s = C.EN_MONTHS[a["mi"] - 1].capitalize()
     elif fn == "h_daymonth":
         s = "%0*d %s" % (a["width"], w["d"], C.EN_MONTHS[a["mi"] - 1].capitalize())
+        if a.get("with_time"):
+            s += " %02d:%02d" % (w["tH"], w["tM"])
     elif a["kind"] == "named":
         s = "%02d %s %02d" % (w["d"], C.EN_MONTHS[a["mi"] - 1].capitalize(), w["yy"])
     else:
@@ -470,7 +483,9 @@ def native_check(spec):
         keep = got.month == a["mi"] and res["period"] == "month"
         bad = not (keep and (got <= b if pref == "past" else got >= b if pref == "future" else got.year == b.year))
     elif fn == "h_daymonth":
-        keep = (got.month, got.day, got.hour, got.minute, got.second) == (a["mi"], w["d"], 0, 0, 0) and res["period"] == "day"
+        keep = (got.month, got.day, got.hour, got.minute, got.second) == (
+            a["mi"], w["d"], w.get("tH", 0) if a.get("with_time") else 0, w.get("tM", 0) if a.get("with_time") else 0, 0) \
+            and res["period"] == "day"
         bad = not (keep and (got <= b if pref == "past" else got >= b if pref == "future" else got.year == b.year))
     else:
         m = a["mi"] if a["kind"] == "named" else w["m"]
